@@ -35,14 +35,28 @@ RDF_TYPE = RDF + "type"
 
 # root cause (Gallina rc / mutation operator) -> finding id
 RC_FINDING = {
-    "ini_base": "C07-F1", "concat": "C07-F2", "abs_test": "C07-F3", "double_base": "C07-F4",
-    "replace_all": "C07-F5", "dt_custom_prefix": "C07-F6", "dt_hardwired": "C07-F7",
-    "lang_marker": "C07-F8", "typed_marker": "C07-F9", "quote_regex": "C07-F10",
-    "first_literal": "C07-F11", "comment_quote": "C07-F12", "dir_unresolved": "C07-F13",
+    "ini_base": "C07-F1", "concat": "C07-F2", "dt_custom_prefix": "C07-F6", "dt_hardwired": "C07-F7",
+    "lang_marker": "C07-F8", "typed_marker": "C07-F9", "dir_unresolved": "C07-F13",
     # reject side (mutation operators of the out-of-dialect stream)
-    "no_eof_check": "C07-R1", "glued_punct": "C07-R2", "closure_ignores_state": "C07-R3",
-    "no_position_check": "C07-R4",
+    "glued_punct": "C07-R2", "closure_ignores_state": "C07-R3", "no_position_check": "C07-R4",
 }
+# Repaired (known_findings.json, status fixed; regression cases in corpus/C07 are replayed first and must pass):
+# the comment scan (former F10-F12), the end-of-input check (R1), the base applied twice (F4), '#' of <#frag> (half
+# of F1), the absolute-IRI test (F3), str.replace without count (F5).
+
+
+def load_corpus():
+    d = os.path.join(core.VERIF, "corpus", "C07")
+    out = []
+    if os.path.isdir(d):
+        for fn in sorted(os.listdir(d)):
+            if fn.endswith(".json"):
+                with open(os.path.join(d, fn)) as f:
+                    c = json.load(f)
+                c["name"] = fn
+                out.append(c)
+    return out
+
 
 # --------------------------------------------------------------------------
 # abstract syntax (mirrors Spec/TtlSyntax.v), rendering, meaning
@@ -581,11 +595,11 @@ def mutants(rnd, doc, lines):
             def glue(ls):
                 t, g = ls[pli][2][pti]
                 ls[pli][2][pti] = (t, "")
-            out.append(("glue_final_dot", "no_eof_check", relayout(glue)))
+            out.append(("glue_final_dot", None, relayout(glue)))
 
     def drop_last(ls):
         del ls[last_li][2][last_ti]
-    out.append(("drop_final_dot", "no_eof_check", relayout(drop_last)))
+    out.append(("drop_final_dot", None, relayout(drop_last)))
     # a comma / semicolon glued on both sides
     cands = [(li, ti) for (li, ti) in toks if lines[li][2][ti][0] in ((",",),) and ti >= 1 and ti + 1 < len(lines[li][2])
              and lines[li][2][ti - 1][0][0] in ("o", "ob", "i") and lines[li][2][ti + 1][0][0] in ("o", "ob", "i")]
@@ -711,6 +725,7 @@ def run(tier, seed, replay=None):
     # ---------------- cases ----------------
     valid = []     # (family, doc, lines)
     texts_extra = []   # (family, operator, rc, text): mutants and numeric stream
+    n_exh = 0
     if replay:
         with open(replay) as f:
             rp = json.load(f)
@@ -741,11 +756,6 @@ def run(tier, seed, replay=None):
             g = g_adv if i % 3 == 0 else g_in
             d = g.doc()
             valid.append(("rnd:adv" if g is g_adv else "rnd:in", d, g.layout(d, rnd.choice([0.1, 0.35, 0.7]))))
-        # out-of-dialect mutants
-        for fam, d, lines in [valid[i] for i in rnd.sample(range(n_exh, len(valid)), 4000 if thorough else 800)]:
-            if fam == "rnd:in":
-                for op, rc, text in mutants(rnd, d, lines):
-                    texts_extra.append(("mutant", op, rc, text))
         # untyped numbers / booleans: excluded by the property, correspondence only
         for tok in NUMERIC_TOKENS:
             texts_extra.append(("numeric", tok, None, "@prefix ex: <http://e/> .\nex:s ex:p %s ; ex:q %s , %s .\n%s ex:p 1 ." %
@@ -760,28 +770,23 @@ def run(tier, seed, replay=None):
     t0 = time.time()
     fields = [enc_case(lines) for _, _, lines in valid]
     mrows = [parse_case_row(r) for r in model_cases(fields, core.NCPU)]
-    extra_model = []
-    if texts_extra:
-        res = core.pool_map(_model_read_chunk, chunked([t[3] for t in texts_extra], 500), chunksize=1)
-        extra_model = [parse_read_row(r) for ch in res for r in ch]
     t_model = time.time() - t0
 
     # ---------------- implementation ----------------
     t0 = time.time()
     texts = [render_doc(lines) for _, _, lines in valid]
     impl = run_impl(texts)
-    extra_impl = run_impl([t[3] for t in texts_extra])
     t_impl = time.time() - t0
 
     # ---------------- compare ----------------
-    corr_fail = []          # indices into valid / ("x", j) into extras
+    corpus_payload = {}
+    corr_fail = []          # indices into valid / ("x", j) into extras / ("c", name) into the corpus
     spec_fail = []          # (index, reason)
     known_hits = {}
     glue_errors = []
     dist = {}
     in_dom = 0
     in_dom_ok = 0
-    in_partial = 0
     unmodelled = 0
     nontrivial = set()
     fam_count = {}
@@ -804,12 +809,6 @@ def run(tier, seed, replay=None):
         if not m["rcs"]:
             in_dom += 1
             in_dom_ok += ok
-        if m["partial"]:
-            in_partial += 1
-            if not ok:      # the proved theorem C07_partial covers this case: the model cannot agree with this
-                spec_fail.append((i, "yielded triples differ from the document's triples inside C07_partial_dom "
-                                     "(the domain of the proved end-to-end theorem)"))
-                continue
         if len(texts[i].split("\n")) > len([x for x in d if x[0] == "D"]) + 1:
             nontrivial.add(texts[i])
         if not ok:
@@ -821,6 +820,23 @@ def run(tier, seed, replay=None):
             else:
                 spec_fail.append((i, "yielded triples differ from the document's triples" +
                                   (" inside C07_dom" if not m["rcs"] else " (root causes %s not listed)" % m["rcs"])))
+    # out-of-dialect mutants: derived from documents inside C07_dom that are read correctly
+    if not replay:
+        good = [i for i in range(n_exh, len(valid)) if valid[i][0] == "rnd:in" and not mrows[i]["rcs"]
+                and impl[i][0] == "ok" and impl[i][1:] == py_sem(valid[i][1])]
+        for i in rnd.sample(good, min(len(good), 3000 if thorough else 600)):
+            fam, d, lines = valid[i]
+            for op, rc, text in mutants(rnd, d, lines):
+                texts_extra.append(("mutant", op, rc, text))
+    t0 = time.time()
+    extra_model = []
+    if texts_extra:
+        res = core.pool_map(_model_read_chunk, chunked([t[3] for t in texts_extra], 500), chunksize=1)
+        extra_model = [parse_read_row(r) for ch in res for r in ch]
+    t_model += time.time() - t0
+    t0 = time.time()
+    extra_impl = run_impl([t[3] for t in texts_extra])
+    t_impl += time.time() - t0
     # mutants / numeric stream
     rej_stats = {}
     for j, (fam, op, rc, text) in enumerate(texts_extra):
@@ -848,7 +864,8 @@ def run(tier, seed, replay=None):
     if os.environ.get("C07_DEBUG"):
         by = {}
         for ix, why in spec_fail:
-            key = (why[:60], tuple(mrows[ix]["rcs"]) if not isinstance(ix, tuple) else texts_extra[ix[1]][1])
+            key = (why[:60], tuple(mrows[ix]["rcs"]) if not isinstance(ix, tuple) else
+                   (ix[1] if ix[0] == "c" else texts_extra[ix[1]][1]))
             by.setdefault(key, []).append(ix)
         for key, ixs in sorted(by.items(), key=lambda kv: -len(kv[1])):
             print("SPECFAIL", len(ixs), key)
@@ -857,7 +874,7 @@ def run(tier, seed, replay=None):
         print("CORRFAIL", len(corr_fail))
         for ix in corr_fail[:8]:
             print("    ", json.dumps(payload_dbg(ix, valid, texts, impl, mrows, texts_extra, extra_impl, extra_model))[:900])
-        print("known_hits", known_hits, "in_dom", in_dom, in_dom_ok, "partial", in_partial, "unmodelled", unmodelled)
+        print("known_hits", known_hits, "in_dom", in_dom, in_dom_ok, "unmodelled", unmodelled)
         print("rej", {"%s:%s" % k: v for k, v in sorted(rej_stats.items())})
 
     # rdflib validates the generator (sample of the valid stream)
@@ -898,6 +915,30 @@ def run(tier, seed, replay=None):
         if mism:
             run.internal_errors.append("extracted binary and vm_compute disagree (C07): %s %s" % (mism[:5], log[-300:]))
 
+    # ---------------- regression corpus of repaired defects: must pass ----------------
+    corpus = load_corpus() if not replay else []
+    corpus_pass = 0
+    if corpus:
+        mbc = core.ModelBin()
+        cm = [parse_read_row(r)[0] for r in mbc.call("c07_read", [[c["text"]] for c in corpus])]
+        mbc.close()
+        for c, mo in zip(corpus, cm):
+            got = impl_obs(c["text"])
+            if c["expected"] == "raise":
+                ok = got[0] not in ("ok", "hang")
+            else:
+                ok = got[0] == "ok" and got[1:] == [tuple(t) for t in c["expected"]]
+            if ok and mo == got:
+                corpus_pass += 1
+            elif not ok:
+                spec_fail.insert(0, (("c", c["name"]), "regression case %s of a repaired defect (%s) fails again"
+                                     % (c["name"], c.get("fixed_by"))))
+                corpus_payload[c["name"]] = {"text": c["text"], "corpus": c["name"], "expected": c["expected"], "impl": got,
+                                             "model": mo}
+            else:
+                corr_fail.append(("c", c["name"]))
+                corpus_payload[c["name"]] = {"text": c["text"], "corpus": c["name"], "impl": got, "model": mo}
+
     # ---------------- known findings: pinned reproducers ----------------
     for fid, f in sorted(findings.items()):
         if f.get("status") != "known":
@@ -918,6 +959,8 @@ def run(tier, seed, replay=None):
 
     # ---------------- verdict ----------------
     def payload(ix):
+        if isinstance(ix, tuple) and ix[0] == "c":
+            return corpus_payload[ix[1]]
         if isinstance(ix, tuple):
             fam, op, rc, text = texts_extra[ix[1]]
             return {"text": text, "operator": op, "rc": rc, "impl": extra_impl[ix[1]], "model": extra_model[ix[1]][0]}
@@ -962,8 +1005,9 @@ def run(tier, seed, replay=None):
         "outcome_distribution": dist,
         "in_C07_dom": in_dom,
         "in_C07_dom_and_correct": in_dom_ok,
-        "in_C07_partial_dom": in_partial,
         "known_finding_hits": known_hits,
+        "corpus_cases_replayed_first": len(corpus),
+        "corpus_cases_passing": corpus_pass,
         "reject_stream": {"%s:%s" % k: v for k, v in sorted(rej_stats.items())},
         "model_unmodelled_outcomes": unmodelled,
         "disagreements_model_vs_impl": len(corr_fail),
